@@ -1819,7 +1819,10 @@ def stated_relation(text):
 def check_messages(rep, g):
     d = g.d
     ex = g.ex
-    if d['custom'] or not d['validators'] or g.err_adt is None:
+    if d['custom'] or not d['validators']:
+        return
+    rep.ob('R-MSG', g.err_adt is not None, g, 'the error enum of a declaration with built-in validators is found in the generated module', {})
+    if g.err_adt is None:
         return
     ea = g.err_adt
     disp = [i for i in g.impls if i.get('trait', '').endswith('fmt::Display') and g.F.ty(i['self']).get('lid') == ea['lid']]
